@@ -9,6 +9,13 @@ SHADOW = {"p": 0.0, "rng": None, "found": [], "n": 0}
 import os as _os
 CRLF_PATH = [_os.environ.get("VF_SHADOW_CRLF", "1") == "1"]
 BYSTANDER = [_os.environ.get("VF_SHADOW_BYSTANDER", "1") == "1"]
+NEIGHBOUR = [_os.environ.get("VF_SHADOW_NEIGHBOUR", "1") == "1"]
+# statements that set most lexer modes (column list, CHECK, DEFAULT, REFERENCES, INDEX, SEQUENCE, ALTER, a skipped statement with mode words)
+NB_PRE = ("CREATE TABLE vf_nb.pre_t (k int NOT NULL DEFAULT 0 CHECK (k > 0), r varchar(10) REFERENCES vf_nb.other_t (id), PRIMARY KEY (k));\n"
+          "CREATE UNIQUE INDEX vf_nb_pre_i ON vf_nb.pre_t (r);\nCREATE SEQUENCE vf_nb.pre_seq START WITH 5 CACHE 10;\n"
+          "ALTER TABLE vf_nb.pre_t ADD CONSTRAINT vf_nb_ck CHECK (k < 100);\nDROP INDEX CHECK DEFAULT;\n")
+NB_POST = ("CREATE TABLE vf_nb.post_t (k int, `r x` decimal(10,2) DEFAULT 1.5, u text UNIQUE);\n"
+           "ALTER TABLE vf_nb.post_t ADD z int;\nCREATE INDEX vf_nb_post_i ON vf_nb.post_t (k);\nCREATE SEQUENCE vf_nb.post_seq INCREMENT BY 2;\n")
 BYSTANDER_DDL = ("CREATE EXTERNAL TABLE \"By\".[stander] (`a` string, b MAP<STRING, INT>)\nROW FORMAT SERDE 'org.apache.hadoop.hive.serde2.RegexSerDe'\n"
                  "WITH SERDEPROPERTIES (\n  \"input.regex\" = \"(x+)(y+)\"\n)\nSTORED AS TEXTFILE;\nCREATE SEQUENCE by_seq START WITH 3 CACHE 7;\nALTER TABLE \"By\".[stander] ADD c int CHECK (c > 0);\n")
 
@@ -20,11 +27,41 @@ def parse(ddl, ctor=None, **run_kw):
         p = DDLParser(ddl, **(ctor or {}))
         out = ("ok", p.run(**run_kw))
     except Exception as e:  # the exception *is* the observation
-        return ("exc", type(e).__name__, str(e)[:300])
+        out = ("exc", type(e).__name__, str(e)[:300])
+        sh = SHADOW
+        if BYSTANDER[0] and sh["p"] and sh["rng"] is not None and sh["rng"].random() < sh["p"]:
+            _shadow_exc(ddl, ctor, run_kw, out)
+        return out
     sh = SHADOW
     if sh["p"] and sh["rng"] is not None and sh["rng"].random() < sh["p"]:
         _shadow(p, ddl, ctor, run_kw, out[1])
     return out
+
+
+def _bystander_ctor(ctor):
+    """options of the object built in between: the opposite naming option and the opposite silent flag"""
+    c = ctor or {}
+    return {"normalize_names": not c.get("normalize_names", False), "silent": not c.get("silent", True)}
+
+
+def _shadow_exc(ddl, ctor, run_kw, first):
+    """(d') a call that RAISED, asked again of a fresh object with another object (opposite silent / naming options, never run) constructed
+    between its construction and its run(): the same exception type and message have to come back"""
+    from simple_ddl_parser import DDLParser
+    sh = SHADOW
+    try:
+        p2 = DDLParser(ddl, **(ctor or {}))
+    except Exception:
+        return                                           # the constructor itself refuses: nothing to interleave
+    try:
+        DDLParser(BYSTANDER_DDL, **_bystander_ctor(ctor))
+        by = ("ok", p2.run(**run_kw))
+    except Exception as e:
+        by = ("exc", type(e).__name__, str(e)[:300])
+    sh["bystander_exc_n"] = sh.get("bystander_exc_n", 0) + 1
+    if by != first and len(sh["found"]) < 20:
+        sh["found"].append({"path": "raising call on a fresh object with another object constructed before its run()", "ddl": ddl, "ctor": ctor or {}, "run_kw": run_kw,
+                            "observed": by, "first_call": first})
 
 
 def _shadow(p, ddl, ctor, run_kw, first):
@@ -60,17 +97,85 @@ def _shadow(p, ddl, ctor, run_kw, first):
         try:
             from simple_ddl_parser import DDLParser
             p2 = DDLParser(ddl, **(ctor or {}))
-            DDLParser(BYSTANDER_DDL, normalize_names=not (ctor or {}).get("normalize_names", False))
+            DDLParser(BYSTANDER_DDL, **_bystander_ctor(ctor))
             by = ("ok", p2.run(**run_kw))
         except Exception as e:
             by = ("exc", type(e).__name__, str(e)[:200])
         sh["bystander_n"] = sh.get("bystander_n", 0) + 1
         if by != ("ok", keep) and len(sh["found"]) < 20 and not ({"dump", "dump_path"} & set(run_kw)):
             sh["found"].append({"path": "fresh object with another object constructed before its run()", "ddl": ddl, "ctor": ctor or {}, "run_kw": run_kw, "observed": by, "first_call": keep})
+    if NEIGHBOUR[0] and not ({"file_path", "dump", "dump_path"} & set(run_kw)):
+        _neighbours(ddl, ctor, run_kw, keep)
+        # (f) the same text with / without a line end behind its last line
+        other = ddl.rstrip("\r\n") if ddl.endswith("\n") else ddl + "\n"
+        try:
+            from simple_ddl_parser import DDLParser
+            tn = ("ok", DDLParser(other, **(ctor or {})).run(**run_kw))
+        except Exception as e:
+            tn = ("exc", type(e).__name__, str(e)[:200])
+        sh["final_newline_n"] = sh.get("final_newline_n", 0) + 1
+        if tn != ("ok", keep) and len(sh["found"]) < 20:
+            sh["found"].append({"path": "the same text %s a line end behind its last line" % ("without" if ddl.endswith("\n") else "with"), "ddl": ddl, "ctor": ctor or {},
+                                "run_kw": run_kw, "observed": tn, "first_call": keep})
     if "\r" not in ddl and not ({"file_path", "dump", "dump_path"} & set(run_kw)):
         vf = parse_via_file(ddl, ctor, **run_kw)
         if vf != ("ok", keep) and len(sh["found"]) < 20:
             sh["found"].append({"path": "parse_from_file(path, parser_settings=ctor, **run_kw)", "ddl": ddl, "ctor": ctor or {}, "run_kw": run_kw, "observed": vf, "first_call": keep})
+
+
+def _combine(a, b):
+    """what a script made of the statements of a followed by the statements of b has to return, given what each returns alone"""
+    if isinstance(a, list) and isinstance(b, list):
+        com = comments_of(a) + comments_of(b)
+        return entities(a) + entities(b) + ([{"comments": com}] if com else [])
+    if isinstance(a, dict) and isinstance(b, dict):
+        out = {}
+        for k in list(a) + [k for k in b if k not in a]:
+            x, y = a.get(k, []), b.get(k, [])
+            if not isinstance(x, list) or not isinstance(y, list):
+                return None
+            out[k] = x + y
+        return out
+    return None
+
+
+def _same_grouped(x, y):
+    if isinstance(x, dict) and isinstance(y, dict):
+        return {k: v for k, v in x.items() if v != []} == {k: v for k, v in y.items() if v != []}
+    return x == y
+
+
+def _neighbours(ddl, ctor, run_kw, keep):
+    """(e) the same script with complete, terminated statements about OTHER objects in front of it / behind it: what it reports for its own
+    statements must not change (statements are parsed independently), whatever the check that produced the script is about"""
+    from simple_ddl_parser import DDLParser
+    sh = SHADOW
+
+    def go(text):
+        try:
+            return ("ok", DDLParser(text, **(ctor or {})).run(**run_kw))
+        except Exception as e:
+            return ("exc", type(e).__name__, str(e)[:200])
+    body = ddl.rstrip()
+    if "vf_nb" in ddl:
+        return
+    plans = [("statements of other objects in front of the script", NB_PRE, True)]
+    if body.endswith(";") and body.count("/*") == body.count("*/"):
+        plans.append(("statements of other objects behind the script", NB_POST, False))
+    for path, nb, front in plans:
+        alone = go(nb)
+        if alone[0] != "ok" and front:
+            nb = nb[:nb.index("DROP INDEX")]              # loud mode refuses the skipped statement: go without it
+            alone = go(nb)
+        if alone[0] != "ok":
+            continue                                     # the neighbour itself is refused under these options: nothing to compare
+        exp = _combine(alone[1], keep) if front else _combine(keep, alone[1])
+        if exp is None:
+            continue
+        got = go(nb + ddl if front else body + "\n" + nb)
+        sh["neighbour_n"] = sh.get("neighbour_n", 0) + 1
+        if not (got[0] == "ok" and _same_grouped(got[1], exp)) and len(sh["found"]) < 20:
+            sh["found"].append({"path": path, "ddl": ddl, "ctor": ctor or {}, "run_kw": run_kw, "observed": got, "first_call": exp})
 
 
 def entities(result):
